@@ -57,7 +57,7 @@ async def run(
         setup_done_events.append(world.loop.create_task(sim.setup_done()))
 
     # Wait for all answers to be here
-    await asyncio.gather(*setup_done_events)
+    await gather_or_cancel(setup_done_events)
 
     # Start simulator processes
     processes: List[asyncio.Task[None]] = []
@@ -71,7 +71,21 @@ async def run(
         processes.append(process)
 
     # Wait for all processes to be done
-    await asyncio.gather(*processes)
+    await gather_or_cancel(processes)
+
+
+async def gather_or_cancel(tasks: List[asyncio.Task[None]]) -> None:
+    """
+    Wait for all *tasks*. If one of them fails (or if we are cancelled
+    ourselves), the others must neither continue nor be left pending, so
+    they are cancelled and awaited.
+    """
+    try:
+        await asyncio.gather(*tasks)
+    finally:
+        for task in tasks:
+            task.cancel()
+        await asyncio.gather(*tasks, return_exceptions=True)
 
 
 async def sim_process(
@@ -150,17 +164,20 @@ async def next_step_settled(sim: SimRunner, world: World) -> bool:
             return True
         else:
             await_time = sim.next_steps[0] if sim.next_steps else TieredTime(world.until) + sim.from_world_time
-            _, pending = await asyncio.wait(
-                [
-                    asyncio.create_task(sim.progress.has_reached(await_time)),
-                    asyncio.create_task(sim.newer_step.wait()),
-                ],
-                return_when="FIRST_COMPLETED",
-                timeout=world.rt_factor,
-            )
+            tasks = [
+                asyncio.create_task(sim.progress.has_reached(await_time)),
+                asyncio.create_task(sim.newer_step.wait()),
+            ]
+            try:
+                await asyncio.wait(
+                    tasks,
+                    return_when="FIRST_COMPLETED",
+                    timeout=world.rt_factor,
+                )
+            finally:
+                for task in tasks:
+                    task.cancel()
             sim.newer_step.clear()
-            for task in pending:
-                task.cancel()
             if world.rt_factor:
                 advance_progress(sim, world)
     return False
